@@ -19,7 +19,7 @@ using namespace hllm;
 
 const char* property_id() { return "C04"; }
 unsigned case_timeout_s() { return 1500; }
-uint64_t num_cases(bool thorough) { return thorough ? 40000 : 4000; }
+uint64_t num_cases(bool thorough) { return thorough ? 60000 : 4000; }
 void final_report() {}
 
 struct Operand {
